@@ -64,6 +64,8 @@ def gen_case(rng):
         p.pop('M', None)
     if cls in ('scaled', 'gauge'):
         p['scale'] = rng.choice([1e4, 1e8])
+    # the contract is relative: the whole tensor may be tiny or huge (10^-+k, k up to 30; far below machine epsilon too)
+    p['global_scale'] = rng.choice([0, 0, 0, -30, -20, -17, -12, 12, 25])
     if cls == 'inflated':
         # k-fold sum with singleton modes: ranks >= 10 next to mode size 1 make the SVD input tall (transposed branch)
         p['fold'] = rng.choice([3, 4, 5])
@@ -273,6 +275,11 @@ def exec_case(p, res, plans=None, rng=None):
     stats = res['stats']
     out = []
     x, known, generic = build(p)
+    if p.get('global_scale'):
+        f_ = 10.0 ** p['global_scale']
+        d_ = len(x.cores)
+        spread = p['vseed'] % 2 == 0      # the factor sits in one core or is spread over all of them
+        x = TT([c * (f_ ** (1.0 / d_)) for c in x.cores] if spread else [c * f_ if k == 0 else c for k, c in enumerate(x.cores)])
     ref = gen.dense(x)
     snap = take_snap(x)
     d = len(x.N)
